@@ -56,7 +56,9 @@ EllOK(r) ==
   /\ AllGood(r.rf, TolAng(r.F)) /\ AllGood(r.ri, TolAng(r.F))
   /\ (Abs(r.F) <= 100000 => AllGood(r.rb, 2 * TolAng(r.F)) /\ Good(r.rpb, 2 * TolAng(r.F)))
   /\ \A i \in DOMAIN r.fix : r.fix[i] = 1
-  /\ r.psic = 0                                             \* finite, also at the poles
+  \* Iso_PoleInfinite (named deviation): Ellipsoid.hpp says the value at +-90 is "some (positive or negative) large but
+  \* finite value"; the library returns +-infinity there (class 2 / 3), and the inverse still returns the pole.
+  /\ (r.psic = 0 \/ (IsPole90(r.phi) /\ r.psic = (IF r.phi[1] = 1 THEN 2 ELSE 3)))
   /\ GoodOrSkipped(r.rpsi, 2 * TolRel(r.F))
   /\ (IsPole90(r.phi) => r.pbeq)                            \* "such that InverseIsometricLatitude returns the original value"
   /\ Good(r.rip, 2 * TolAng(r.F))
